@@ -19,6 +19,7 @@ import (
 	"sort"
 	"strconv"
 	"strings"
+	"unicode/utf8"
 
 	"golang.org/x/tools/go/packages"
 	"verif/mc/core"
@@ -70,6 +71,25 @@ var scalars = []scalar{
 
 func conv(t, v string) string { return t + "(" + v + ")" }
 
+var specialChars = []string{"a", "\"", "\\", "`", "\n", "\r", "\t", "\x00", "\xff", "é", "\u2028", "\ufeff", "\u00a0", "'", "\x7f", "\U0001F600"}
+
+// specialStrings lists every non-empty string of at most n characters over specialChars.
+func specialStrings(n int) []string {
+	out := []string{}
+	level := []string{""}
+	for i := 0; i < n; i++ {
+		var next []string
+		for _, p := range level {
+			for _, ch := range specialChars {
+				next = append(next, p+ch)
+			}
+		}
+		out = append(out, next...)
+		level = next
+	}
+	return out
+}
+
 // elem types for containers with two sample values each (already converted)
 type elem struct {
 	typ    string
@@ -107,6 +127,20 @@ func values(thorough bool) []Val {
 			add("*"+s.typ, "ptr("+conv(s.typ, v)+")")
 		}
 		add("*"+s.typ, "(*"+s.typ+")(nil)")
+	}
+	// every string of <=2 (3) characters over the characters a literal syntax has to care about
+	// (a renderer may switch between interpreted and raw literals on any of them)
+	maxSpecial := 2
+	if thorough {
+		maxSpecial = 3
+	}
+	for _, s := range specialStrings(maxSpecial) {
+		add("string", "string("+strconv.Quote(s)+")")
+		if len([]rune(s)) <= 1 || !utf8.ValidString(s) {
+			add("vt.MyString", "vt.MyString("+strconv.Quote(s)+")")
+			add("map[string]string", "map[string]string{"+strconv.Quote(s)+": "+strconv.Quote(s)+"}")
+			add("*string", "ptr(string("+strconv.Quote(s)+"))")
+		}
 	}
 	// containers of depth 1
 	for _, e := range elems {
@@ -635,7 +669,7 @@ func replay(c *core.Ctx, raw json.RawMessage) {
 func init() {
 	core.Register(&core.Prop{
 		ID: "C10", Level: "model_checking", Run: run, Replay: replay, Shards: 4,
-		Rule:        "value model: every listed boundary value of every scalar type (bool, all int/uint kinds incl. uintptr, runes, float32/64 edge values, strings with quotes/newlines/backquotes/non-UTF-8/NUL), named scalars of two foreign packages and of the target package, a one-level pointer to each of them (and nil pointers); for 9 element types: nil/empty/1/3-element slices, arrays, pointers, pointers to slices, maps under 6 key types (string, int, bool, named string, array, struct) incl. two insertion orders of the same map; structs with zero and non-zero members of every field kind (pointer to zero struct, zero struct as map value / slice element, embedded, anonymous, cross-package); depth-2 containers. Each is rendered by snippet.Value in a compiled program, type-checked as `var got T = <text>` in the target package and compared at run time with the original (nil == empty); same text when rendered twice and for both insertion orders; the whole list is rendered in 4 sessions (files) of one process - same target, same target again, another target, the first target again - and sessions for the same target must agree in texts and registered imports; built with the map-order seam the sessions run under ascending / descending / rotated iteration of every map (reflect.MapKeys included). Non-trivial = composite/pointer values; states = distinct type shapes",
+		Rule:        "value model: every listed boundary value of every scalar type (bool, all int/uint kinds incl. uintptr, runes, float32/64 edge values, strings with quotes/newlines/backquotes/non-UTF-8/NUL, and every string of <=2 (3) characters over 16 special characters: quote, backslash, backquote, LF, CR, TAB, NUL, DEL, invalid byte, BOM, U+2028, NBSP, apostrophe, non-ASCII, astral), named scalars of two foreign packages and of the target package, a one-level pointer to each of them (and nil pointers); for 9 element types: nil/empty/1/3-element slices, arrays, pointers, pointers to slices, maps under 6 key types (string, int, bool, named string, array, struct) incl. two insertion orders of the same map; structs with zero and non-zero members of every field kind (pointer to zero struct, zero struct as map value / slice element, embedded, anonymous, cross-package); depth-2 containers. Each is rendered by snippet.Value in a compiled program, type-checked as `var got T = <text>` in the target package and compared at run time with the original (nil == empty); same text when rendered twice and for both insertion orders; the whole list is rendered in 4 sessions (files) of one process - same target, same target again, another target, the first target again - and sessions for the same target must agree in texts and registered imports; built with the map-order seam the sessions run under ascending / descending / rotated iteration of every map (reflect.MapKeys included). Non-trivial = composite/pointer values; states = distinct type shapes",
 		Assumptions: []string{"NaN/Inf, complex numbers, pointer map keys, func/chan/interface-typed members and unexported fields are outside the stated domain"},
 	})
 }
